@@ -12,6 +12,10 @@ use std::path::PathBuf;
 fn deserialize_env(s: &str) -> Result<HashMap<String, String>, String> {
     let mut env = HashMap::new();
     for line in s.lines() {
+        // the value starts on the line after "Environment:": the first line is empty
+        if line.trim().is_empty() {
+            continue;
+        }
         let (key, value) = match line.split_once("=") {
             Some((key, value)) => (key, value),
             None => {
